@@ -66,13 +66,13 @@ def run(prop, tier, seed):
     chk.add_mc(res, "InvC02: model observers satisfy the C02 clauses in every reachable state")
     jobs = []
     nst = 0
-    for cfg in (["MC_core_loops.cfg"] if tier == "quick" else ["MC_core_loops.cfg", "MC_core_small.cfg", "MC_core_3n.cfg"]):
+    for cfg in (["MC_core_loops.cfg", "MC_core_tiny.cfg"] if tier == "quick" else ["MC_core_loops.cfg", "MC_core_small.cfg", "MC_core_3n.cfg"]):
         states, alphabet = mc_states(chk, cfg, ["InvRefines"])
         nmax = max([n for c in alphabet for n in drivers.call_nodes(c)] or [2])
         known = list(range(1, nmax + 1))
         grid = drivers.grid_of(alphabet)
         if tier == "quick":
-            states = rng.sample(states, min(len(states), 160))
+            states = rng.sample(states, min(len(states), 100))
         for i, st in enumerate(states):
             nst += 1
             jobs.append((rng.randrange(1 << 30), st["dir"], st["rem"], st["hist"], LABS[(i + seed) % len(LABS)], known, grid))
